@@ -190,7 +190,7 @@ def checker_validation(prop):
         breaking = sorted(glob.glob(os.path.join(VERIF, "seeded", prop + "-*", "patch.diff")))
         js = os.path.join(td, "b.json")
         files = breaking + sorted(glob.glob(os.path.join(VERIF, "mutants", "*", "*.json")))
-        subprocess.run([sys.executable, mt, "--props", prop, "--filter", prop, "--jobs", "12", "--json", js] + files, env=env, capture_output=True, text=True)
+        subprocess.run([sys.executable, mt, "--own", prop, "--jobs", "12", "--json", js] + files, env=env, capture_output=True, text=True)
         try:
             r = json.load(open(js))
         except Exception:
